@@ -182,10 +182,10 @@ def list_subqueries(segment: BaseSegment) -> list[SubQueryTuple]:
     elif segment.type in ("where_clause", "having_clause"):
         bracketeds = []
         if expression := segment.get_child("expression"):
-            bracketeds = expression.get_children("bracketed")
+            bracketeds = list_expression_bracketed(expression)
         elif bracketed_where := segment.get_child("bracketed"):
             if expression := bracketed_where.get_child("expression"):
-                bracketeds = expression.get_children("bracketed")
+                bracketeds = list_expression_bracketed(expression)
         subquery = [
             SubQueryTuple(extract_innermost_bracketed(bracketed), None)
             for bracketed in bracketeds
@@ -201,10 +201,10 @@ def list_subqueries(segment: BaseSegment) -> list[SubQueryTuple]:
                 # JOIN ... ON a.id IN (SELECT ...): the condition can read tables just like WHERE
                 bracketeds = []
                 if expression := join_on_condition.get_child("expression"):
-                    bracketeds = expression.get_children("bracketed")
+                    bracketeds = list_expression_bracketed(expression)
                 elif bracketed_on := join_on_condition.get_child("bracketed"):
                     if expression := bracketed_on.get_child("expression"):
-                        bracketeds = expression.get_children("bracketed")
+                        bracketeds = list_expression_bracketed(expression)
                 subquery += [
                     SubQueryTuple(extract_innermost_bracketed(bracketed), None)
                     for bracketed in bracketeds
@@ -217,6 +217,16 @@ def list_subqueries(segment: BaseSegment) -> list[SubQueryTuple]:
             if s.type in ("bracketed", "select_statement")
         ]
     return subquery
+
+
+def list_expression_bracketed(expression: BaseSegment) -> list[BaseSegment]:
+    """
+    brackets directly in an expression. Some dialects (clickhouse) wrap the bracket of IN (...) into a tuple.
+    """
+    bracketeds = list(expression.get_children("bracketed"))
+    for tuple_segment in expression.get_children("tuple"):
+        bracketeds += tuple_segment.get_children("bracketed")
+    return bracketeds
 
 
 def list_child_segments(
